@@ -121,9 +121,19 @@ func instrumentAccesses(fset *token.FileSet, f *ast.File, fields map[string]bool
 	if !in.used {
 		return false
 	}
-	// add the import
+	addVrtImport(f)
+	return true
+}
+
+// addVrtImport adds the import of the hook package under the name vrt.
+func addVrtImport(f *ast.File) {
+	for _, imp := range f.Imports {
+		if imp.Name != nil && imp.Name.Name == "vrt" {
+			return
+		}
+	}
 	spec := &ast.ImportSpec{Name: ast.NewIdent("vrt"), Path: &ast.BasicLit{Kind: token.STRING, Value: strconv.Quote(vrtPath)}}
-	added := false
+	f.Imports = append(f.Imports, spec)
 	for _, d := range f.Decls {
 		if gd, ok := d.(*ast.GenDecl); ok && gd.Tok == token.IMPORT {
 			gd.Specs = append(gd.Specs, spec)
@@ -131,14 +141,24 @@ func instrumentAccesses(fset *token.FileSet, f *ast.File, fields map[string]bool
 				gd.Lparen = gd.Pos()
 				gd.Rparen = gd.End()
 			}
-			added = true
-			break
+			return
 		}
 	}
-	if !added {
-		f.Decls = append([]ast.Decl{&ast.GenDecl{Tok: token.IMPORT, Specs: []ast.Spec{spec}}}, f.Decls...)
+	f.Decls = append([]ast.Decl{&ast.GenDecl{Tok: token.IMPORT, Specs: []ast.Spec{spec}}}, f.Decls...)
+}
+
+// directiveComments keeps only compiler directives (see rewriteFile).
+func directiveComments(f *ast.File) []*ast.CommentGroup {
+	var keep []*ast.CommentGroup
+	for _, g := range f.Comments {
+		for _, c := range g.List {
+			if strings.HasPrefix(c.Text, "//go:") || strings.HasPrefix(c.Text, "// +build") || strings.HasPrefix(c.Text, "//line ") {
+				keep = append(keep, g)
+				break
+			}
+		}
 	}
-	return true
+	return keep
 }
 
 type instr struct {
